@@ -150,6 +150,72 @@ Encode(g, cg) == EncodeWith(g, cg, ValOf4)
 Decode(doc) == DecodeWith(doc, PhOf4)
 ZeroCrd(g) == [v \in g.vs |-> <<0, 0>>]
 
+\* ---------- phase texts of other writers, by SHAPE (json/phase.rs to_phase; audit #24) ----------
+\* A shape is what the text is made of (the harness renders it in one of the spellings pyzx & co. use and logs it):
+\*   kind "frac" : [-] [num] [pi] [/ den]        (a numerator or a pi is present)        value  +-num / den
+\*   kind "dec"  : [-] mant * 10^exp10 [pi]      (a decimal literal, exponent optional)   value  +-mant * 10^exp10
+\*   kind "empty": the empty text = "no value" (the reader substitutes the vertex type's default)
+\*   kind "raw"  : a text that denotes no rational (not judged)
+\* A missing numerator means 1, a missing denominator 1; "pi" is a unit, not a factor (phases are in half turns).
+RECURSIVE JPow10(_)
+JPow10(k) == IF k <= 0 THEN 1 ELSE 10 * JPow10(k - 1)
+PhShapeVal(sh) ==
+  LET sg == IF sh.neg THEN -1 ELSE 1 IN
+  IF sh.kind = "frac" THEN <<sg * (IF sh.hasnum THEN sh.num ELSE 1), IF sh.hasden THEN sh.den ELSE 1>>
+  ELSE IF sh.exp10 >= 0 THEN <<sg * sh.mant * JPow10(sh.exp10), 1>>
+  ELSE <<sg * sh.mant, JPow10(-sh.exp10)>>
+PhShapeWF(sh) == \/ sh.kind = "frac" /\ (sh.hasnum \/ sh.pi) /\ sh.den > 0 /\ sh.num >= 0
+                 \/ sh.kind = "dec" /\ sh.mant >= 0
+\* "denotes a rational with denominator <= 256": the statement's "exactly, for denominators up to 256"
+PhShapeInScope(sh) == PhShapeWF(sh) /\ CanonPair(PhShapeVal(sh))[2] <= 256
+\* what decoding such a text may answer: that rational (as Phase stores it) or an error -- never another phase,
+\* never "no value", never a panic
+ForeignPhaseOK(sh, res, ret) ==
+  IF sh.kind = "empty" THEN res = "none"
+  ELSE PhShapeInScope(sh) => (res = "err" \/ (res = "ok" /\ ret = CanonPair(PhShapeVal(sh))))
+
+\* ---------- from_phase with caller-chosen PhaseOptions ----------
+\* p: the phase (reduced pair), o = [has_ign, ign, ignore_approx, ignore_pi, limit (0 = None)];
+\* doc: the text as another reader understands it (NoVal for ""), back_res/back: to_phase of the result.
+\*   * p is the ignore value: the text is "" and decodes to "no value" (the caller's default);
+\*   * otherwise, if p's denominator is within 256 and within the caller's limit, the text denotes p and decodes to p;
+\*   * otherwise the caller asked for an approximation (or p is out of the statement's range): nothing is demanded
+\*     of the value; in every case a text denoting a rational with denominator <= 256 decodes to that rational.
+PhaseOptOK(p, o, doc, back_res, back) ==
+  LET exactScope == p[2] <= 256 /\ (o.limit = 0 \/ p[2] <= o.limit)
+  IN /\ IF o.has_ign /\ CanonPair(o.ign) = p THEN doc = NoVal /\ back_res = "none"
+        ELSE exactScope => (doc # NoVal /\ CanonPair(doc) = p /\ back_res = "ok" /\ back = p)
+     /\ (doc # NoVal /\ doc[2] > 0 /\ CanonPair(doc)[2] <= 256) => (back_res = "ok" /\ back = CanonPair(doc))
+\* L1: how from_phase writes (tilde iff it approximated and was not told to hide it; "pi" unless told otherwise or 0;
+\* a limited denominator is within the limit)
+PhaseOptAsWritten(p, o, doc, tilde, haspi) ==
+  IF o.has_ign /\ CanonPair(o.ign) = p THEN ~tilde /\ ~haspi
+  ELSE LET lim == o.limit > 0 /\ p[2] > o.limit
+       IN /\ tilde = (lim /\ ~o.ignore_approx)
+          /\ haspi = (~o.ignore_pi /\ p[1] # 0)              \* the zero test precedes the limiting: "0*pi" is possible
+          /\ (lim => doc[2] <= o.limit)
+
+\* ---------- scalar documents of other writers (json/scalar.rs TryFrom<&JsonScalar>) ----------
+\* pyzx's Scalar: sqrt2^power2 * e^{i pi phase} * floatfactor * PROD_j (1 + e^{i pi node_j}); is_zero: 0; is_unknown: no value.
+\* Defined in the ring when every phase is a multiple of pi/4 and there is no float factor (ff "absent" | "one").
+RECURSIVE JNodesProd(_)
+JNodesProd(ns) == IF ns = <<>> THEN ROne ELSE RMul(RAdd(ROne, Omega(PhU(ns[1]))), JNodesProd(Tail(ns)))
+ScalarDocExact(s) == /\ s.ff \in {"one", "absent"} /\ (s.phase = NoVal \/ PhOK(s.phase))
+                     /\ \A i \in 1..Len(s.phasenodes) : s.phasenodes[i] = NoVal \/ PhOK(s.phasenodes[i])
+DecodeScalarExt(s) ==
+  IF s.is_zero THEN RZero
+  ELSE RMul(RMul(Omega(IF s.phase = NoVal THEN 0 ELSE PhU(s.phase)), Sqrt2Pow(s.power2)),
+            JNodesProd([i \in 1..Len(s.phasenodes) |-> IF s.phasenodes[i] = NoVal THEN <<0, 1>> ELSE s.phasenodes[i]]))
+
+\* ---------- documents with parallel edges: the multigraph they denote ----------
+\* an extra edge <<u, w, t>> between two spiders = a path through a fresh phase-free Z spider (identity on a wire)
+RECURSIVE WithParallel(_, _)
+WithParallel(g, par) ==
+  IF par = <<>> THEN g
+  ELSE LET x == Head(par)
+           n == Fresh(g)
+       IN WithParallel(SetET(SetET(AddV(g, n, "Z", 0), x[1], n, x[3]), n, x[2], "N"), Tail(par))
+
 \* ---------- well-formed documents ----------
 DocNames(doc) == [i \in 1..Len(doc.node_vertices) |-> doc.node_vertices[i].name]
                  \o [i \in 1..Len(doc.wire_vertices) |-> doc.wire_vertices[i].name]
